@@ -633,7 +633,7 @@ impl Model {
                 } else if p[0].len() != 1 || !"chiklmouy".contains(p[0].as_str()) {
                     self.push(se, c, "ERROR".into());
                 } else if p.len() > 1 {
-                    se.ambiguous = Some("STATS with server".into());
+                    self.opaque(c, "STATS+server", se);
                 } else if u.modes.is_oper() {
                     self.push_e(se, Exp::OptionalPrefix { c, prefix: "212 ".into() });
                     self.push_e(se, Exp::Optional { c, options: vec!["242".into()] });
@@ -703,7 +703,7 @@ impl Model {
                 if p.is_empty() {
                     self.motd(c, se)
                 } else {
-                    se.ambiguous = Some("MOTD with target".into())
+                    self.opaque(c, "MOTD+target", se)
                 }
             }
             "ADMIN" => {
@@ -717,7 +717,7 @@ impl Model {
                         self.push(se, c, format!("259 :{}", i));
                     }
                 } else {
-                    se.ambiguous = Some("ADMIN with target".into())
+                    self.opaque(c, "ADMIN+target", se)
                 }
             }
             "VERSION" | "TIME" | "INFO" | "HELP" | "LINKS" | "CONNECT" | "REHASH" | "RESTART" => {
@@ -730,6 +730,14 @@ impl Model {
                 se.ambiguous = Some(format!("verb {} is not modelled", other));
             }
         }
+    }
+
+    /// a form whose reply the properties do not define (remote-server targets): any reply to the sender,
+    /// no state change, nothing to anybody else
+    fn opaque(&self, c: usize, what: &str, se: &mut StepExp) {
+        se.cur = 0;
+        self.push_e(se, Exp::OptionalPrefix { c, prefix: String::new() });
+        se.labels.push(format!("{}/opaque", what));
     }
 
     // ------------------------------------------------------------------ registration
@@ -1490,7 +1498,7 @@ impl Model {
 
     fn list(&mut self, c: usize, p: &[String], se: &mut StepExp) {
         if p.len() > 1 {
-            se.ambiguous = Some("LIST with server".into());
+            self.opaque(c, "LIST+server", se);
             return;
         }
         let filter: Option<Vec<String>> = p.get(0).map(|s| s.split(',').map(|x| x.to_string()).collect());
@@ -1574,7 +1582,10 @@ impl Model {
                     }
                     'o' | 'v' | 'h' | 'q' | 'a' => {
                         if ai >= args.len() || !valid_name(&args[ai]) {
-                            se.ambiguous = Some("MODE rank letter without a valid argument".into());
+                            // rejected as a whole before anything is executed: ERR_INVALIDMODEPARAM
+                            se.cur = P08 | P13;
+                            self.push_e(se, Exp::OnePrefix { c, prefix: format!("696 {}", chan) });
+                            se.labels.push(format!("MODE/696/{}", ch));
                             return;
                         }
                         ai += 1;
@@ -1582,7 +1593,9 @@ impl Model {
                     'l' | 'k' => {
                         if set {
                             if ai >= args.len() || (ch == 'l' && args[ai].parse::<usize>().is_err()) {
-                                se.ambiguous = Some("MODE +l/+k without a valid argument".into());
+                                se.cur = P08 | P13;
+                                self.push_e(se, Exp::OnePrefix { c, prefix: format!("696 {}", chan) });
+                                se.labels.push(format!("MODE/696/{}", ch));
                                 return;
                             }
                             ai += 1;
@@ -1592,8 +1605,11 @@ impl Model {
                         }
                     }
                     'i' | 'm' | 't' | 'n' | 's' => {}
-                    _ => {
-                        se.ambiguous = Some("unknown channel mode letter".into());
+                    other => {
+                        // ERR_UNKNOWNMODE, nothing executed
+                        se.cur = P08 | P13;
+                        self.push_e(se, Exp::OnePrefix { c, prefix: format!("472 {}", other) });
+                        se.labels.push("MODE/472".into());
                         return;
                     }
                 }
@@ -2120,7 +2136,7 @@ impl Model {
             return;
         }
         if p.len() >= 2 {
-            se.ambiguous = Some("WHOIS with server".into());
+            self.opaque(c, "WHOIS+server", se);
             return;
         }
         let masks: Vec<String> = p[0].split(',').map(|s| s.to_string()).collect();
@@ -2204,10 +2220,22 @@ impl Model {
             self.push(se, c, "461 WHOWAS".into());
             return;
         }
-        if p.len() > 1 {
-            se.ambiguous = Some("WHOWAS with count".into());
+        if p.len() > 2 {
+            self.opaque(c, "WHOWAS+server", se);
             return;
         }
+        // an optional count: that many newest records; zero (or none) means all
+        let count: Option<usize> = match p.get(1) {
+            None => None,
+            Some(t) => match t.parse::<usize>() {
+                Ok(k) => Some(k),
+                Err(_) => {
+                    self.push(se, c, "ERROR".into());
+                    se.labels.push("WHOWAS/bad_count".into());
+                    return;
+                }
+            },
+        };
         let n = p[0].clone();
         if !valid_name(&n) {
             self.push(se, c, "ERROR".into());
@@ -2215,11 +2243,15 @@ impl Model {
         }
         match self.history.get(&n) {
             Some(h) => {
-                for (user, host, real) in h.iter().rev() {
+                let take = match count {
+                    Some(k) if k > 0 => k,
+                    _ => h.len(),
+                };
+                for (user, host, real) in h.iter().rev().take(take) {
                     self.push(se, c, format!("314 {} ~{} {}{}{}", n, user, host, SEP, real));
                     self.push_e(se, Exp::Optional { c, options: vec![format!("312 {}", n)] });
                 }
-                se.labels.push("WHOWAS/found".into());
+                se.labels.push(format!("WHOWAS/found/count{}", match count { None => "none", Some(0) => "0", Some(k) if k < h.len() => "less", Some(k) if k == h.len() => "equal", _ => "more" }));
             }
             None => {
                 self.push(se, c, format!("406 {}", n));
